@@ -20,7 +20,7 @@ def _wl(tier, seed):
 
 
 ENTRY = {
-    "modules": ["IbexProofs.Props.C07"],
+    "modules": ["IbexProofs.Props.C07", "IbexProofs.Props.C07loop"],
     "harnesses": ["h_optim"],
     "workloads": _wl,
     "nontrivial": _c07_nontrivial,
